@@ -49,7 +49,7 @@ const CONFIGS: [Cfg; 5] = [
 ];
 
 fn new_kinds(c: Cfg) -> ([u8; M], usize) {
-    let raw: [u8; 6] = kani::any();
+    let raw: [u8; 6] = kani::any(); // configurations use 4 old tokens
     let mut k = [K_EOF; M];
     let new_len = 4 + 1 - (c.de - c.ds) + c.ins;
     macro_rules! set { ($($i:literal),*) => { $( if $i + 1 < new_len { kani::assume(raw[$i] <= K_OTHER); k[$i] = raw[$i]; } )* }; }
